@@ -180,6 +180,15 @@ def run_loads(col):
                         want = want * 2 * ring.pi() * ra.mesh.points[k // d, 1]
                 if not is_zero(P(r[k, 0]) - want):
                     bad.append(k)
+            def chk_pl(item=item, axi=axi):
+                nv = symarray("pl2", (2, d))
+                it.call_method(item, "update", [nv])
+                r2 = micro.dense(it.call(it.getattr(it.getattr(item, "assemble"), "vector"), [fc], {}))
+                fresh = it.call(cls, [fc, pts], dict(values=nv, axisymmetric=axi))
+                rf = micro.dense(it.call(it.getattr(it.getattr(fresh, "assemble"), "vector"), [fc], {}))
+                bad2 = diff_dense(r2, rf)
+                return not bad2, "%s: %s" % (method_where(cls, "update"), "; ".join(b[:120] for b in bad2[:2]))
+            col.check("C14.O4", "PointLoad update (axisymmetric=%s, %d extra fields)" % (axi, mixed), "after update(values) the item assembles the vector of a fresh item with those values and the same points / flags", chk_pl)
             col.add("C14.O4", "PointLoad vector (axisymmetric=%s, %d extra fields)" % (axi, mixed), "exactly the given values in the rows of the loaded points (times 2 pi R when axisymmetric), zeros elsewhere", not bad and r.shape == (n, 1), "rows %s" % bad)
         if mixed:
             item = it.call(cls, [fc, [1]], dict(values=[[sym("q")]], apply_on=1))
@@ -212,6 +221,17 @@ def run_pressure(col):
     bad = [k for k in range(want.shape[0]) if not is_zero(ring.cancel(P(r[k, 0])) - want[k, 0])]
     col.add("C14.O5", "SolidBodyPressure vector", "nodal forces == sum_q N_a (-p) cof(F) N dA (current area vector times minus the pressure)", not bad, "%s: rows %s" % (method_where(cls, "_vector"), bad))
     col.add("C14.O5", "SolidBodyPressure multiplier", "the solver applies the multiplier -1 exactly once (C01.O8)", P(it.getattr(asm, "multiplier")) == -1)
+    # ramped loads: after update(new) an item assembles what a fresh item with the new value (and otherwise the same arguments) assembles
+    p2 = sym("pressure2")
+
+    def chk_upd():
+        it.call_method(item, "update", [p2])
+        r2 = micro.dense(it.call(it.getattr(it.getattr(item, "assemble"), "vector"), [fc], {}))
+        fresh = it.call(cls, [fc], dict(pressure=p2))
+        rf = micro.dense(it.call(it.getattr(it.getattr(fresh, "assemble"), "vector"), [fc], {}))
+        bad2 = diff_dense(r2, rf)
+        return not bad2, "%s: %s" % (method_where(cls, "update"), "; ".join(b[:120] for b in bad2[:2]))
+    col.check("C14.O5", "SolidBodyPressure update", "after update(pressure) the item assembles the vector of a fresh item with that pressure", chk_upd)
     finish_info(col, it)
 
 
